@@ -1,6 +1,8 @@
 import TabulaModel.Util
 import TabulaModel.Model.FontDecode
 import TabulaModel.Model.EncodingRef
+import TabulaModel.Model.CMapRender
+import TabulaModel.Model.FormFonts
 /-!
 Line protocol of property C07 (see harness/c07). Byte strings are hex (`-` = empty),
 scalar values are lower-case hex numbers separated by single spaces (`-` = no scalar).
@@ -54,6 +56,85 @@ def dumpState (cm : CMap) : String :=
   let cs := (canonChars cm.chars).map fun p => s!"{hexNat p.1}:{scalarsC p.2}"
   let rs := cm.ranges.map fun r => s!"{hexNat r.start}:{hexNat r.stop}:{hexNat r.startUnicode}:{scalarsC r.units}"
   s!"bw={cm.byteWidth} abw={cm.actualByteWidth} chars={";".intercalate cs} ranges={";".intercalate rs}"
+
+
+/-- bytes as lower-case hex (`-` = empty) -/
+def hexOut (l : List Nat) : String :=
+  if l.isEmpty then "-" else String.ofList (l.flatMap fun b => [hexChar (b / 16), hexChar (b % 16)])
+
+/-- policy flags: a string over `o` (oneLine) `t` (tight) `c` (crlf) `u` (upper), then `/wrapArr` -/
+def policy? (s : String) : Option Policy :=
+  match s.splitOn "/" with
+  | [fl, wr] => wr.toNat?.map fun n =>
+    { oneLine := fl.contains 'o', tight := fl.contains 't', crlf := fl.contains 'c', upper := fl.contains 'u', wrapArr := n }
+  | _ => none
+
+def form? (s : String) : Option Form :=
+  if s = "bfchar" then some .bfchar else if s = "offset" then some .offset else if s = "array" then some .array
+  else if s = "mixed" then some .mixed else if s = "override" then some .override else none
+
+/-- runs `lo:t/t/..;lo:t/..` with each text a comma list of hex scalars (`~` = no runs) -/
+def runs? (s : String) : Option (List Run) :=
+  if s == "~" then some [] else
+  (s.splitOn ";").mapM fun r => match r.splitOn ":" with
+    | [lo, ts] => do
+      let lo ← hexNat? lo
+      let ts ← (ts.splitOn "/").mapM scalarsC?
+      pure ⟨lo, ts⟩
+    | _ => none
+
+
+/-! ### `c07.ext`: objects, page resources, content, NFC table -/
+
+/-- a scalar that is no scalar: marks a string the NFC table has no answer for -/
+def nfcMissing : Nat := 0x110000
+
+def nfcOf (tbl : List (List Nat × List Nat)) (pre : List Nat) : List Nat :=
+  match tbl.find? (fun e => e.1 == pre) with
+  | some e => e.2
+  | none => nfcMissing :: pre
+
+/-- one object: `n:<hex body>` or `n:<hex dict>/<hex data|!>` (a stream; `!` = `Decode()` fails) -/
+def extObj? (s : String) : Option (Nat × Except Reader.Err FormFonts.FVal) :=
+  match s.splitOn ":" with
+  | [n, body] => do
+    let n ← n.toNat?
+    match body.splitOn "/" with
+    | [b] => do
+      let b ← unhexN b
+      match Pdf.coreParse b with
+      | .ok (o, _) => pure (n, .ok (.obj o))
+      | .error _ => pure (n, .error .err)
+    | [d, data] => do
+      let d ← unhexN d
+      let dec ← if data == "!" then some none else (unhexN data).map some
+      match Pdf.coreParse d with
+      | .ok (.dict kv, _) => pure (n, .ok (.stream kv dec))
+      | _ => pure (n, .error .err)
+    | _ => none
+  | _ => none
+
+def extObjs? (s : String) : Option (List (Nat × Except Reader.Err FormFonts.FVal)) :=
+  if s == "~" then some [] else (s.splitOn ",").mapM extObj?
+
+def extTexts (l : List (List Nat)) : String :=
+  if l.isEmpty then "-" else "|".intercalate (l.map scalarsC)
+
+
+/-! ### `c07.reg`: the registration loop in two orders -/
+
+def ltStr : List Nat → List Nat → Bool
+  | [], [] => false
+  | [], _ :: _ => true
+  | _ :: _, [] => false
+  | a :: as, b :: bs => if a < b then true else if b < a then false else ltStr as bs
+
+def insertStr (k : List Nat) : List (List Nat) → List (List Nat)
+  | [] => [k]
+  | x :: r => if k == x then x :: r else if ltStr k x then k :: x :: r else x :: insertStr k r
+
+def fontLine (k : List Nat) (f : FontDecode.Font) : String :=
+  s!"{hexOut k}={hexOut f.encoding}:{if f.toUnicode.isSome then "T" else "F"}"
 
 def optScalars : Option (List Nat) → String
   | some l => "ok " ++ scalars l
@@ -112,6 +193,54 @@ def handle (op : String) (args : List String) : String :=
       (match tbl.find? (fun e => e.1 == pre) with
        | some e => scalars e.2
        | none => "nfc-missing " ++ scalars pre)
+    | _, _ => "bad-op"
+  | "c07.render", [pol, f, w, rs] => match policy? pol, form? f, w.toNat?, runs? rs with
+    | some p, some f, some w, some rs => hexOut (renderMap p f w rs)
+    | _, _, _, _ => "bad-op"
+  | "c07.entries", [f, rs] => match form? f, runs? rs with
+    | some f, some rs => ";".intercalate ((entriesFor f rs).map fun e => s!"{hexNat e.1}:{scalarsC e.2}")
+    | _, _ => "bad-op"
+  | "c07.ext", [objs, pres, content, t] =>
+    match extObjs? objs, (if pres == "~" then some none else (unhexN pres).map some), unhexN content, nfcTable? t with
+    | some objs, some pres, some content, some tbl =>
+      let res : FormFonts.FRes := fun n => match objs.find? (fun e => e.1 == n) with
+        | some e => e.2
+        | none => .error .err
+      let pageRes : Option (Option Reader.Dict) := match pres with
+        | none => some none
+        | some b => match Pdf.coreParse b with
+          | .ok (.dict kv, _) => some (some kv)
+          | _ => none
+      (match pageRes with
+       | none => "bad-op"
+       | some pr => match FormFonts.extract (nfcOf tbl) res pr content with
+         | .ok ts => "ok " ++ extTexts ts
+         | .error .unsupported => "model-err"
+         | .error _ => "err")
+    | _, _, _, _ => "bad-op"
+  | "c07.reg", [objs, pres] =>
+    match extObjs? objs, unhexN pres with
+    | some objs, some b =>
+      let fres : FormFonts.FRes := fun n => match objs.find? (fun e => e.1 == n) with
+        | some e => e.2
+        | none => .error .err
+      let res := FormFonts.toRes fres
+      (match Pdf.coreParse b with
+       | .ok (.dict rd, _) =>
+         (match Reader.fontsOf res (some rd) with
+          | none => "none"
+          | some fd =>
+            let m1 := FormFonts.registerLoop res fd fd FormFonts.FontMap.empty
+            let m2 := FormFonts.registerLoop res fd fd.reverse FormFonts.FontMap.empty
+            let m3 := FormFonts.registerFonts res rd FormFonts.FontMap.empty
+            let cands := (fd.map (·.1) ++ fd.map (fun kv => 47 :: kv.1)).foldl (fun acc k => insertStr k acc) []
+            let same := cands.all fun k =>
+              let d := fun (f : Option FontDecode.Font) => f.map fun f => (f.encoding, f.toUnicode.isSome)
+              d (m1 k) == d (m2 k) && d (m1 k) == d (m3 k)
+            if !same then "order-dependent" else
+            let ls := cands.filterMap fun k => (m1 k).map (fontLine k)
+            if ls.isEmpty then "-" else ",".intercalate ls)
+       | _ => "bad-op")
     | _, _ => "bad-op"
   | _, _ => "bad-op"
 
